@@ -246,6 +246,8 @@ fn write_elem(e: &Elem, sep: &str, out: &mut Vec<u8>) {
     match e.nil {
         1 => out.extend_from_slice(format!("{}xmlns:xsi=\"{}\"{}xsi:nil=\"true\"", sep, XSI, sep).as_bytes()),
         2 => out.extend_from_slice(format!("{}i:nil=\"1\"", sep).as_bytes()),
+        // two prefixes bound to the XSI namespace are in scope; the attribute uses the one that was NOT declared last
+        3 => out.extend_from_slice(format!("{}xmlns:xsi=\"{}\"{}i:nil=\"true\"", sep, XSI, sep).as_bytes()),
         _ => {}
     }
     if e.empty_form {
@@ -266,7 +268,7 @@ fn write_elem(e: &Elem, sep: &str, out: &mut Vec<u8>) {
 
 fn scope_of(e: &Elem, is_root: bool, root_binds_i: bool) -> Scope {
     let mut s: Scope = e.decls.iter().map(|&d| (DECLS[d].0.as_bytes().to_vec(), DECLS[d].1.as_bytes().to_vec())).collect();
-    if e.nil == 1 {
+    if e.nil == 1 || e.nil == 3 {
         s.push((b"xsi".to_vec(), XSI.as_bytes().to_vec()));
     }
     if is_root && root_binds_i {
@@ -296,7 +298,7 @@ fn flatten(e: &Elem, chain: &mut Vec<Scope>, is_root: bool, root_i: bool, expand
     chain.push(scope_of(e, is_root, root_i));
     let nil_true = match e.nil {
         1 => true,
-        2 => resolve(chain, b"i:nil", true) == R::Bound(XSI.as_bytes().to_vec()),
+        2 | 3 => resolve(chain, b"i:nil", true) == R::Bound(XSI.as_bytes().to_vec()),
         _ => false,
     };
     let depth = chain.len();
@@ -674,7 +676,7 @@ fn build_doc(f: &Family, mut i: u64, thorough: bool) -> Option<Elem> {
     let c2d = f.small_sets[take(f.small_sets.len() as u64)].clone();
     let g_name = ["p:a", "a"][take(2)];
     let c_attr = take(3) as u8;
-    let nil = take(3) as u8; // 0 none, 1 xsi:nil on the innermost of c's subtree, 2 i:nil (i bound on root) on it
+    let nil = take(4) as u8; // 0 none, 1 xsi:nil on the innermost of c's subtree, 2 i:nil (i bound on root) on it, 3 i:nil with xsi declared in place as well
     let leaf_form = take(3); // 0 <e/>, 1 <e></e>, 2 <e>t</e>
     let c_xml = take(2) == 1;
     if i != 0 {
@@ -717,7 +719,7 @@ fn build_doc(f: &Family, mut i: u64, thorough: bool) -> Option<Elem> {
 fn family_size(f: &Family, _thorough: bool) -> u64 {
     let s = f.sets.len() as u64;
     let m = f.small_sets.len() as u64;
-    4 * s * s * m * m * 2 * 3 * 3 * 3 * 2
+    4 * s * s * m * m * 2 * 3 * 4 * 3 * 2
 }
 
 pub fn run(ctx: &Ctx) {
@@ -898,7 +900,7 @@ fn family(t: Tier, full: bool) -> Family {
 }
 
 fn doc_uses_i(e: &Elem) -> bool {
-    e.nil == 2 || e.children.iter().any(doc_uses_i)
+    e.nil == 2 || e.nil == 3 || e.children.iter().any(doc_uses_i)
 }
 
 fn write_doc(doc: &Elem, root_i: bool, out: &mut Vec<u8>) {
